@@ -293,9 +293,19 @@ def ks_for(n):
     return list(range(1, 25)) + list(range(25, n + 1, 3))
 
 
-def sweep(ctx, exe, bases, tag):
+def sweep(ctx, exe, bases, tag, fresh=False):
     """-> sweep cases (each base without fault, then failat k / failfrom k for the k's of ks_for(N))."""
-    outs, crashes = vlib.run_stream([exe], bases, ctx.tmp, tag + "-count", env=dict(vlib.ASAN_ENV, H_UPPER_TMP=ctx.tmp))
+    env = dict(vlib.ASAN_ENV, H_UPPER_TMP=ctx.tmp)
+    if fresh:
+        # black-box mode of a harness whose library state survives a case: one process per base
+        outs, crashes = {}, {}
+        for i, base in enumerate(bases):
+            o, c = vlib.run_stream([exe], [base], ctx.tmp, "%s-count%d" % (tag, i), env=env)
+            outs[i] = o.get(0, [])
+            if 0 in c:
+                crashes[i] = c[0]
+    else:
+        outs, crashes = vlib.run_stream([exe], bases, ctx.tmp, tag + "-count", env=env)
     cases = []
     stats = {"bases": len(bases), "allocations_in_bases": 0}
     for i, base in enumerate(bases):
@@ -345,7 +355,7 @@ def make_components(ctx):
         rule="containers: base sequences over elastic array / queue / seqptrmap / pool (C12's generators without their own "
              "schedules, 6..90 ops) x {no fault, failat k, failfrom k : k = 1..N allocations of the base}; "
              "non-trivial = a fault is scheduled; distinct by hash of the op list",
-        monitor_args=["dsmon"], ldflags=[WRAP], **common)
+        monitor_args=["dsmon"], ldflags=[WRAP], bb_ok=True, bb_srcs=c12.BB_SRCS, bb_fresh=True, **common)
     ev = vlib.Component(
         "events", "h_allocfail.c", EV_SRCS, ["af"], None, nontrivial=lambda c: c[0].startswith("fail"),
         rule="events: base sequences over ptrheap init/add/getmin/deletemin and events_immediate/timer/network register/cancel, "
@@ -388,12 +398,13 @@ def run_components(ctx, names=None):
         if names is not None and comp.name not in names:
             continue
         ctx.rules.append("%s: %s" % (comp.name, comp.rule))
-        exe, err = vlib.build_harness(ctx, comp.name, comp.harness, comp.srcs, cpu=comp.cpu, extra=comp.extra, ldflags=comp.ldflags)
+        exe, err = vlib.build_component(ctx, comp)      # white-box, or black-box where the component allows it (bb_ok)
         if exe is None:
             vlib.process_failures(ctx, comp, [{"kind": "BUILD", "case": [], "index": -1, "detail": {"stderr": err}, "crash": None}])
             continue
         bases = vlib.load_corpus("C14", comp.name) + bases_fn(ctx.rng.fork(comp.name), ctx.tier)
-        cases, stats = sweep(ctx, exe, bases, comp.name)
+        bases = vlib.bb_filter(ctx, comp, bases)
+        cases, stats = sweep(ctx, exe, bases, comp.name, fresh=getattr(comp, "fresh_process", False))
         ctx.cov["components"].setdefault(comp.name, {}).update(stats)
         comp.gen = (lambda cs: (lambda rng, tier, mult: cs))(cases)
         fails = vlib.run_cases(ctx, comp, exe, cases)
